@@ -129,6 +129,10 @@ func findVerKey(km kms.KeyManager, candidateKeys []string) (int, error) {
 	var errs []error
 
 	for i, key := range candidateKeys {
+		if !isASCII(key) {
+			return -1, fmt.Errorf("recipient key %d is not base58 encoded", i)
+		}
+
 		recKID, err := jwkkid.CreateKID(base58.Decode(key), kms.ED25519Type)
 		if err != nil {
 			return -1, err
@@ -159,6 +163,10 @@ func decodeSender(b64Sender string, pk []byte, km kms.KeyManager) ([]byte, []byt
 	senderPub, err := b.SealOpen(encSender, pk)
 	if err != nil {
 		return nil, nil, err
+	}
+
+	if !isASCII(string(senderPub)) {
+		return nil, nil, fmt.Errorf("decodeSender: sender key is not base58 encoded")
 	}
 
 	senderData := base58.Decode(string(senderPub))
@@ -196,6 +204,10 @@ func (p *Packer) decodeCipherText(cek *[chacha.KeySize]byte, envelope *legacyEnv
 		return nil, err
 	}
 
+	if len(nonce) != chachaCipher.NonceSize() {
+		return nil, fmt.Errorf("decodeCipherText: invalid iv length %d", len(nonce))
+	}
+
 	payload := append(cipherText, tag...)
 
 	message, err = chachaCipher.Open(nil, nonce, payload, aad)
@@ -204,4 +216,16 @@ func (p *Packer) decodeCipherText(cek *[chacha.KeySize]byte, envelope *legacyEnv
 	}
 
 	return message, nil
+}
+
+// isASCII tells whether s has ASCII characters only: base58.Decode indexes its alphabet table with the runes of its
+// input and panics on any other rune.
+func isASCII(s string) bool {
+	for i := 0; i < len(s); i++ {
+		if s[i] >= 0x80 { //nolint:gomnd
+			return false
+		}
+	}
+
+	return true
 }
